@@ -325,8 +325,26 @@ fn c04_block_hash_field<const N: usize, const T: usize>(normalize: bool, strict:
 where
     BlockHashSize<N>: ConstrainedBlockHashSize,
 {
+    c04_block_hash_field_p::<N, T>(normalize, strict, 0)
+}
+
+/// `runfree`: the first `runfree` bytes are base64 characters without two equal neighbours
+/// (a structured family that reaches the capacity cheaply: everything interesting happens in
+/// the unconstrained tail).
+fn c04_block_hash_field_p<const N: usize, const T: usize>(normalize: bool, strict: bool, runfree: usize)
+where
+    BlockHashSize<N>: ConstrainedBlockHashSize,
+{
     let buf: [u8; T] = kani::any();
     let n = any_len(T);
+    let mut i = 0;
+    while i < T {
+        if i < runfree {
+            kani::assume(spec_b64(buf[i]) != 0x40 && (i == 0 || buf[i] != buf[i - 1]));
+        }
+        i += 1;
+    }
+    kani::assume(n >= runfree);
     let mut rest: &[u8] = &buf[..n];
     let dirty: [u8; N] = kani::any();
     let mut bh = dirty;
@@ -379,6 +397,17 @@ macro_rules! c04_bh_harness {
             c04_block_hash_field::<$n, $t>($norm, cfg!(feature = "strict-parser"))
         }
     };
+}
+/// capacity boundary of the collapsing parser, cheaply: 29 run-free symbols, then 11 free bytes
+#[kani::proof]
+#[kani::unwind(80)]
+fn c04_bh32_t40_norm_tail() {
+    c04_block_hash_field_p::<32, 40>(true, cfg!(feature = "strict-parser"), 29)
+}
+#[kani::proof]
+#[kani::unwind(80)]
+fn c04_bh64_t72_norm_tail() {
+    c04_block_hash_field_p::<64, 72>(true, cfg!(feature = "strict-parser"), 61)
 }
 c04_bh_harness!(c04_bh32_t12_raw, 32, 12, false);
 c04_bh_harness!(c04_bh32_t12_norm, 32, 12, true);
